@@ -56,6 +56,7 @@ ALPHABET = ["pos_point", "neg_point", "pos_ext", "neg_ext", "blend_pp", "blend_n
 NOISE_Q = ["none", "real0"]
 NOISE_T = ["none", "real0", "real1", "real2"]
 RMSMODES = ["forced", "files"]
+PEDESTAL = 1.5 * SIGMA
 POLARITIES = [(False, False), (False, True), (True, False), (True, True)]     # (nopositive, nonegative)
 FITTED = [("ra", 1.0), ("dec", 1.0), ("peak_flux", -1.0), ("int_flux", -1.0), ("a", 1.0), ("b", 1.0), ("pa", 1.0)]   # column, sign under negation
 ERR_FIELDS = ["err_ra", "err_dec", "err_peak_flux", "err_int_flux", "err_a", "err_b", "err_pa"]
@@ -88,6 +89,11 @@ def cases(tier, seed):
             for noise, mode in itertools.product(NOISE_Q if tier == "quick" else NOISE_T, RMSMODES):
                 yield "abc", dict(seq=[ALPHABET[k] for k in seq], noise=noise, rms=mode, docov=bool(n == 1 or i % 5 == 0))
                 i += 1
+            if n == 1 or (n == 2 and seq[0] < seq[1] and (seq[0] + seq[1]) % 3 == 0):
+                # backgrounds of ONE sign (the negated twin has no positive background pixel): a constant pedestal given as
+                # a number, and a smooth everywhere-positive map given as a file
+                for noise, mode in itertools.product((NOISE_Q if tier == "quick" else NOISE_T)[:2], ["forced_pedestal", "files_positive"]):
+                    yield "abc", dict(seq=[ALPHABET[k] for k in seq], noise=noise, rms=mode, docov=False)
     # sources of opposite sign close enough to share ONE island (islands are found on |signal-to-noise|)
     for sep in (3.0, 4.0, 5.0, 6.0):
         for neg_peak in (-0.8, -1.25):
@@ -144,10 +150,14 @@ def build_scene(case, seed):
     ii, jj = np.mgrid[0:SHAPE[0], 0:SHAPE[1]]
     if case["rms"] == "files":
         bkg = np.round((SIGMA * (0.75 * np.sin(ii / 37.0 + 0.3) * np.cos(jj / 29.0) + 0.5)) * 4096) / 4096
+    elif case["rms"] == "files_positive":
+        bkg = np.round((SIGMA * (0.75 * np.sin(ii / 37.0 + 0.3) * np.cos(jj / 29.0) + 1.5)) * 4096) / 4096
+    elif case["rms"] == "forced_pedestal":
+        bkg = np.full(SHAPE, PEDESTAL)
     else:
         bkg = np.zeros(SHAPE)
     rms = np.full(SHAPE, SIGMA)
-    if case["rms"] == "files":
+    if case["rms"].startswith("files"):
         # a smoothly varying (+-25 %) noise map, exactly representable
         rms = np.round(SIGMA * (1.0 + 0.25 * np.sin(ii / 23.0 + 0.7) * np.cos(jj / 31.0)) * 65536) / 65536
     return hdr, img, bkg, rms
@@ -403,12 +413,14 @@ def evaluate(clause, case, ctx):
             f = os.path.join(d, "c13_%s.fits" % ("p" if sign > 0 else "n"))
             files.append(f)
             scenes.write_image(f, hdr, sign * (img + bkg))
-            if case["rms"] == "files":
+            if case["rms"].startswith("files"):
                 fb, fr = f.replace(".fits", "_bkg.fits"), f.replace(".fits", "_rms.fits")
                 files.extend([fb, fr])
                 scenes.write_image(fb, hdr, sign * bkg)
                 scenes.write_image(fr, hdr, rms)
                 kw = dict(bkgin=fb, rmsin=fr)
+            elif case["rms"] == "forced_pedestal":
+                kw = dict(rms=SIGMA, bkg=sign * PEDESTAL)
             else:
                 kw = dict(rms=SIGMA, bkg=0.0)
             for nopos, noneg in POLARITIES:
